@@ -1925,6 +1925,32 @@ def union_sites(F, body, src_locals=None):
                 mut.add(b["id"])
                 done.add(b["id"])
                 forms.append("extend")
+    # `src.into_iter().fold(set, |mut acc, x| { acc.insert(x); acc })`: the fold's result is the accumulator it was given plus every element
+    # of the undiminished source (the closure inserts its element on every path and hands the accumulator back)
+    from flow import must_be_copy_of
+    for b in body.blocks:
+        t = b["term"]
+        if t["k"] != "call" or b["cleanup"] or not (t.get("ngen") or "").endswith("iterator::Iterator::fold") or len(t["args"]) != 3:
+            continue
+        it = op_local(t["args"][0])
+        if src is not None and it not in src and not (ta.ref_of.get(it, set()) & src):
+            continue
+        names = receiver_chain_calls(body, it)
+        if [n for n in names if any(n.endswith(x) or (x + "<") in n for x in DROPPING_ADAPTORS)]:
+            continue
+        for cl in closures_passed(F, body, t):
+            prep(cl)
+            gc = cfg_of(cl)
+            tac = Taint(cl)
+            A_, X_ = (2, 3) if cl.kind == "closure" else (1, 2)        # a closure's first parameter is its environment
+            ins = {x["id"] for x in cl.blocks if x["term"]["k"] == "call" and not x["cleanup"] and (x["term"].get("ncallee") or "").endswith("::insert")
+                   and x["term"]["args"] and (A_ in tac.ref_of.get(op_local(x["term"]["args"][0]), set()) | {op_local(x["term"]["args"][0])})
+                   and len(x["term"]["args"]) > 1 and op_local(x["term"]["args"][1]) in Taint(cl).closure({X_})}
+            rets = {x["id"] for x in cl.blocks if x["term"]["k"] == "return" and not x["cleanup"]}
+            if ins and rets and not (rets & gc.reach((0,), avoid=ins)) and must_be_copy_of(cl, 0, {A_}):
+                mut.add(b["id"])
+                done.add(b["id"])
+                forms.append("fold-insert")
     inserts = {b["id"] for b in body.blocks if b["term"]["k"] == "call" and not b["cleanup"] and (b["term"].get("ncallee") or "").endswith("::insert")}
     if inserts:
         for nb, starts, exits, _names in loops_over(F, body, lambda names, fields: True):
